@@ -35,7 +35,7 @@ func main() {
 		"malformed-glob-decided:legacy",
 		"glob-redirect", "loopback-twin-redirect",
 	)
-	cases := run.N(15000, 300000)
+	cases := run.N(15000, 240000)
 	const chains = 10
 	if rc := run.ReplayCase(); rc >= 0 {
 		runCase(run, int(rc), chains)
